@@ -159,11 +159,24 @@ fn match_place(single: &Arc<Single>, is_job_activity: bool, activity_ctx: &Activ
         })
         .find(|(idx, _)| get_place_tag(*idx) == activity_ctx.tag)
         .map(|(idx, place)| {
-            // NOTE search for the latest occurrence assuming that times are sorted
+            // NOTE prefer the time when service is actually started: activity time includes waiting and service,
+            // so it might intersect with more than one time window of the place
+            let service_start = activity_ctx.time.end - place.duration;
+            let is_service_time = |time: &&TimeSpan| {
+                let tw = time.to_time_window(activity_ctx.route_start_time);
+                time.intersects(activity_ctx.route_start_time, &activity_ctx.time)
+                    && tw.start - 1. <= service_start
+                    && service_start <= tw.end + 1.
+            };
+
+            // NOTE otherwise, search for the latest occurrence assuming that times are sorted
             let time = place
                 .times
                 .iter()
-                .rfind(|time| time.intersects(activity_ctx.route_start_time, &activity_ctx.time))
+                .find(is_service_time)
+                .or_else(|| {
+                    place.times.iter().rfind(|time| time.intersects(activity_ctx.route_start_time, &activity_ctx.time))
+                })
                 .unwrap();
 
             let time = match time {
